@@ -91,6 +91,8 @@ class Runner:
         self.snapshots = []
         self.done_calls = {}
         self.shutdown_info = {}
+        self.shutdown_task = None
+        self.more_shutdown_tasks = []
         self.futures_at_shutdown = {}
         self.consumers = {}
         self.consumer_tasks = []
@@ -343,6 +345,11 @@ class Runner:
             msg.payload = str(body).encode()
         if il:
             self.srv_done.add(sv)
+        if unsendable == "uncopyable":
+            # serialises, but cannot be deep-copied (the message layer keeps a copy of an ACK for duplicates)
+            msg.opt.etag = memoryview(b"abcd")
+            pipe.add_response(msg, is_last=il)
+            return
         if unsendable:
             # a message that cannot be serialised (str payload): sending it raises into the application, which
             # answers with a bare 5.00 instead, as error_to_message does (oracle-only scripts)
@@ -404,11 +411,16 @@ class Runner:
     def do_X(self, ev):
         self.shut = True
 
+        again = self.shutdown_task is not None           # a second X: the application calls shutdown() once more
+
         async def shut():
             try:
                 await self.ctx.shutdown()
             except Exception as e:
-                self.shutdown_info["error"] = f"{type(e).__name__}: {e}"
+                self.shutdown_info["error"] = (("second call: " if again else "") + f"{type(e).__name__}: {e}")
+            if again:
+                self.shutdown_info["again_done_tick"] = self.loop.now_ticks()
+                return
             self.shutdown_info["done_tick"] = self.loop.now_ticks()
             self.futures_at_shutdown = {k: _future_state(q) for k, q in self.requests.items()}
             self.shutdown_info["handlers_alive"] = sorted(self.srv_pipes)
@@ -416,9 +428,13 @@ class Runner:
         if len(ev) > 2 and ev[2]:
             # the application's task calls shutdown() in this very callback (it was woken by a timer that fired in
             # the loop iteration in which the preceding datagram arrived): runs synchronously up to its first wait
-            self.shutdown_task = asyncio.Task(shut(), loop=self.loop, eager_start=True)
+            task = asyncio.Task(shut(), loop=self.loop, eager_start=True)
         else:
-            self.shutdown_task = self.loop.create_task(shut())
+            task = self.loop.create_task(shut())
+        if again:
+            self.more_shutdown_tasks.append(task)
+        else:
+            self.shutdown_task = task
 
     # ---- the site: hands every request to the script ---------------------------------------
     async def render_to_pipe(self, pipe):
@@ -469,6 +485,8 @@ class Runner:
             self.snapshots.append(self.state_summary())
             if self.shut:
                 await self.shutdown_task
+                for t in self.more_shutdown_tasks:
+                    await t
                 if self.script.get("second_context"):
                     self.shutdown_info["second_context"] = await self.second_context_works()
             else:
